@@ -132,6 +132,12 @@ func Simulate(sched simrt.Schedule, fsPlan *simrt.FSPlan, maxTicks uint64, f fun
 				stack = stack[i:]
 			}
 			ex.Panic = &PanicInfo{Class: classify(v), Value: fmt.Sprint(v), Frame: innermostCogFrame(stack), Stack: truncate(stack, 6000)}
+			if o, ok := r.Aborted.(simrt.Overflow); ok {
+				ex.Panic.Class, ex.Panic.Frame = "stack-overflow", innermostCogFrame(o.Func+"(")
+			}
+			if h, ok := r.Aborted.(simrt.Hang); ok {
+				ex.Panic.Class, ex.Panic.Frame = "hang", innermostCogFrame(h.Func+"(")
+			}
 		} else if r.Aborted != nil {
 			// the budget panic was swallowed on the way up (text/template
 			// converts panics of template functions into errors)
